@@ -1,5 +1,7 @@
 #define VCLOCK_IMPL
+#ifndef BUSWORLD_REAL_COND
 #define VCLOCK_COND
+#endif
 #include "busworld.h"
 #include <stdarg.h>
 
@@ -427,7 +429,7 @@ result_t World::onRead(unsigned int timeout) {
   int lat = (int)tr->getLatency();
   auto endTimeout = [&]() { vp::vclockAdvanceMs((int)timeout + lat); return RESULT_ERR_TIMEOUT; };
   if (ended) return endTimeout();
-  if (++steps > STEP_CAP) {
+  if (++steps > (sc.stepCap > 0 ? sc.stepCap : STEP_CAP)) {
     capHit = true;
     endRun(false);
     return endTimeout();
